@@ -1671,6 +1671,12 @@ class UserSpaceImpl(*_user_space_impl_base):
         DynamicBase.__init__(self)
         EditableParentImpl.__init__(self)
 
+        # Register the initial refs as ReferenceManager.new_ref does
+        for ref in self._own_refs.values():
+            if not isinstance(ref.interface, Interface):
+                self.model.refmgr._valid_to_refs.setdefault(
+                    id(ref.interface), []).append(ref)
+
         self.cellsnamer = AutoNamer("Cells")
 
         if isinstance(source, ModuleType):
